@@ -29,7 +29,7 @@ use shared::terms::{Term, TriplePattern};
 use shared::triple::Triple;
 use std::collections::{BTreeMap, BTreeSet};
 
-const RULE: &str = "generated programs in six families (tc: transitive closure variants over uncertain edges with cycles; diamond: layered and/or gates over shared evidence, ground and with variables; late: a fact with a short weak proof and a long strong proof that arrives rounds later, with consumers downstream; random: 1-4 random rules over 2-3 predicates incl. heads equal to input facts, filters, several conclusions; negation: any of these plus 1-2 rules with negated atoms whose heads feed no rule; zero_one: probabilities from {0, 1/2, 1}) x 2-8 (thorough: 2-12) uncertain inputs plus certain facts x two probability assignments (dyadic k/16 incl. 0 and 1, arbitrary f64) x fresh Reasoner per mode with its own shuffled insertion order. Every fact of store-after-inference U oracle support is one comparison per mode. Non-trivial = at least one derived (non-input) fact whose possible-worlds probability lies strictly between 0 and 1 was compared in both exact modes; distinct by hash of (program, facts, probabilities).";
+const RULE: &str = "generated programs in six families (tc: transitive closure variants over uncertain edges with cycles; diamond: layered and/or gates over shared evidence, ground and with variables; late: a fact with a short weak proof and a long strong proof that arrives rounds later, with consumers downstream; random: 1-4 random rules over 2-3 predicates incl. heads equal to input facts, filters, several conclusions; negation: any of these plus 1-3 rules with negated atoms whose heads feed no rule, half of the later ones siblings of the previous one (same head and variables, other body predicates, so that several negation rules conclude the same fact); zero_one: probabilities from {0, 1/2, 1}) x 2-8 (thorough: 2-12) uncertain inputs plus certain facts x two probability assignments (dyadic k/16 incl. 0 and 1, arbitrary f64) x fresh Reasoner per mode with its own shuffled insertion order. Every fact of store-after-inference U oracle support is one comparison per mode. Non-trivial = at least one derived (non-input) fact whose possible-worlds probability lies strictly between 0 and 1 was compared in both exact modes; distinct by hash of (program, facts, probabilities).";
 
 const TOL: f64 = 1e-9;
 
@@ -1344,8 +1344,38 @@ fn add_negation(r: &mut Rng, s: &mut Skel) {
     let preds: Vec<String> = preds.into_iter().collect();
     let consts: Vec<String> = consts.into_iter().collect();
     let vars = ["X", "Y", "Z"];
-    let n_neg = r.range(1, 2);
+    let n_neg = r.range(1, 3);
+    let mut last_neg: Option<LRule> = None;
     for j in 0..n_neg {
+        // a sibling of the previous negation rule: the same head and variables, other
+        // predicates in the body, so that two negation rules conclude the same facts
+        if let Some(prev) = last_neg.clone() {
+            if r.chance(1, 2) {
+                let mut placed = false;
+                for _attempt in 0..12 {
+                    let mut cand = prev.clone();
+                    for p in cand.pos.iter_mut().chain(cand.neg.iter_mut()) {
+                        if r.chance(2, 3) {
+                            p.1 = PT::C(r.pick(&preds).clone());
+                        }
+                    }
+                    if cand.pos == prev.pos && cand.neg == prev.neg {
+                        continue;
+                    }
+                    let mut all = s.rules.clone();
+                    all.push(cand.clone());
+                    let probe = Inst { family: String::new(), certain: vec![], uncertain: vec![], probs: vec![], rules: all };
+                    if inst_ok(&probe) {
+                        s.rules.push(cand);
+                        placed = true;
+                        break;
+                    }
+                }
+                if placed {
+                    continue;
+                }
+            }
+        }
         for _attempt in 0..12 {
             let np = r.range(1, 2);
             let mut prem = vec![];
@@ -1372,6 +1402,7 @@ fn add_negation(r: &mut Rng, s: &mut Skel) {
             all.push(cand.clone());
             let probe = Inst { family: String::new(), certain: vec![], uncertain: vec![], probs: vec![], rules: all };
             if inst_ok(&probe) {
+                last_neg = Some(cand.clone());
                 s.rules.push(cand);
                 break;
             }
